@@ -105,12 +105,12 @@ class Variant:
         self.bin = os.path.join(self.dir, "runner")
         return True
 
-    def run(self, inputs, options, plan, timeout_ms=5000, debug_out=None, mem_mb=2048, conc=0, rounds=1, obs_name="obs.ndjson"):
+    def run(self, inputs, options, plan, timeout_ms=5000, debug_out=None, mem_mb=2048, conc=0, rounds=1, obs_name="obs.ndjson", debug_keep=0):
         """plan: list of [group index in self.groups, input index, option index]; returns observations"""
         req = dict(groups=[dict(gi=g.gi, entry=g.sname(), rules=[g.rname(i + 1) for i in range(len(g.rules))],
                                 blocks={str(n["blk"]): dict(k=n["k"], op=n["op"], key=n["key"], arg=n["arg"], g=n["g"], err=n["err"])
                                         for n in g.nodes if n["blk"]}) for g in self.groups],
-                   inputs=inputs, options=options, plan=plan, timeout_ms=timeout_ms, mem_mb=mem_mb, variant=self.vi, conc=conc, rounds=rounds)
+                   inputs=inputs, options=options, plan=plan, timeout_ms=timeout_ms, mem_mb=mem_mb, variant=self.vi, conc=conc, rounds=rounds, debug_keep=debug_keep)
         rq = os.path.join(self.dir, "req%s.json" % ("" if obs_name == "obs.ndjson" else "_" + obs_name))
         with open(rq, "w") as f:
             json.dump(req, f)
